@@ -102,10 +102,19 @@ def find_fn(funcs, pattern):
     return hits[0]
 
 
+def find_fn_where(funcs, pattern, param_contains):
+    """unique function whose name matches the regex and whose parameter types contain the given text"""
+    rx = re.compile(pattern)
+    hits = [n for n in funcs if rx.search(n) and any(param_contains in ty for _, ty in funcs[n].params)]
+    if len(hits) != 1:
+        raise Inconclusive('function lookup %r / %r matched %d functions: %r' % (pattern, param_contains, len(hits), hits[:5]))
+    return hits[0]
+
+
 def struct_fields(path, name):
     """field names of `struct name {..}` in declaration order, parsed from the current source"""
     src = open(os.path.join(REPO, path)).read()
-    m = re.search(r'struct\s+%s\s*(?:<[^>]*>)?\s*\{(.*?)\n\}' % re.escape(name), src, re.S)
+    m = re.search(r'struct\s+%s\s*(?:<[^>{]*>)?\s*(?:where[^{]*)?\{(.*?)\n\}' % re.escape(name), src, re.S)
     if not m:
         raise Inconclusive('struct %s not found in %s' % (name, path))
     body = re.sub(r'//[^\n]*', '', m.group(1))
